@@ -19,6 +19,8 @@ def birkhoff_von_neumann(X: np.ndarray) -> List[Tuple[float, np.ndarray]]:
     A list of tuples of the form (coefficient, permutation matrix).
   """
   check_square_matrix(X)
+  # Work on a copy: the decomposition subtracts from the matrix in place and must not destroy the caller's array.
+  X = np.array(X, dtype=float)
   n = X.shape[0]
 
   result = []
